@@ -6,6 +6,8 @@ package main
 // the metadata is then zstd-decompressed.  The getter here serves real CBOR-encoded DataFrame nodes by real CID.
 
 import (
+	"bytes"
+	"context"
 	"fmt"
 	"os"
 	"strconv"
@@ -13,6 +15,8 @@ import (
 	"testing"
 
 	"github.com/cespare/xxhash/v2"
+	"github.com/gagliardetto/solana-go"
+	"github.com/ipfs/go-cid"
 	"github.com/rpcpool/yellowstone-faithful/ipld/ipldbindcode"
 	"github.com/rpcpool/yellowstone-faithful/iplddecoders"
 	"github.com/rpcpool/yellowstone-faithful/tooling"
@@ -155,6 +159,68 @@ func (in *c14MainInterp) judge(ans string) {
 			m = c14.Digest(nil)
 		}
 		report(in.exps[1], "ok "+m)
+	}
+}
+
+// c14ParsedPath: the path behind JSON-RPC getTransaction / getBlock (storage.go parseTransactionAndMetaFromNode): a real
+// signed transaction whose serialized bytes are split into k linked frames (fan-out f) must come back as the same
+// transaction, for every k and f; metadata in one frame.
+func c14ParsedPath(s *zz.Session) {
+	keys := genKeys(2, 77)
+	rng := zz.NewRNG(zz.Seed() + 1414)
+	for _, dl := range []int{8, 200, 700, 1100} {
+		for _, k := range []int{1, 2, 3, 7} {
+			for _, fan := range []int{1, 2, 5} {
+				data := rng.Bytes(dl)
+				ix := solana.NewInstruction(solana.MustPublicKeyFromBase58("11111111111111111111111111111111"),
+					solana.AccountMetaSlice{solana.Meta(keys[0].PublicKey()).WRITE().SIGNER(), solana.Meta(keys[1].PublicKey()).WRITE()}, data)
+				var bh solana.Hash
+				copy(bh[:], rng.Bytes(32))
+				tx, err := solana.NewTransaction([]solana.Instruction{ix}, bh, solana.TransactionPayer(keys[0].PublicKey()))
+				if err != nil {
+					panic(err)
+				}
+				if _, err := tx.Sign(func(pk solana.PublicKey) *solana.PrivateKey { return &keys[0] }); err != nil {
+					panic(err)
+				}
+				raw, _ := tx.MarshalBinary()
+				w := &carW{}
+				node := ipldbindcode.Transaction{Kind: 0, Data: w.frames(raw, k, fan), Metadata: w.frames([]byte{}, 1, 1), Slot: 5, Index: pp(0)}
+				enc, err := node.MarshalCBOR()
+				if err != nil {
+					panic(err)
+				}
+				dec, err := iplddecoders.DecodeTransaction(enc)
+				if err != nil {
+					panic(err)
+				}
+				getter := func(ctx context.Context, c cid.Cid) (*ipldbindcode.DataFrame, error) {
+					for _, o := range w.objs {
+						if o.Cid.Equals(c) {
+							return iplddecoders.DecodeDataFrame(o.Data)
+						}
+					}
+					return nil, fmt.Errorf("frame %s not stored", c)
+				}
+				line := fmt.Sprintf("# parsed-path txbytes=%d frames=%d fanout=%d", len(raw), k, fan)
+				ans := zz.Guard(func() string {
+					got, _, err := parseTransactionAndMetaFromNode(dec, getter)
+					if err != nil {
+						return "err: " + err.Error()
+					}
+					back, err := got.MarshalBinary()
+					if err != nil || !bytes.Equal(back, raw) {
+						return "other transaction"
+					}
+					return "ok"
+				})
+				s.Count("parsed-path:" + strings.SplitN(ans, ":", 2)[0])
+				if ans != "ok" {
+					s.Violation(fmt.Sprintf("parseTransactionAndMetaFromNode (getTransaction/getBlock path): a %d-byte transaction stored in %d frame(s), fan-out %d, does not come back: %s", len(raw), k, fan, ans),
+						fmt.Sprintf("C14:main:parsed-path:frames=%d", k), s.Replay([]string{line}))
+				}
+			}
+		}
 	}
 }
 
@@ -304,4 +370,5 @@ func TestVerifC14Main(t *testing.T) {
 		out := in.exec(op)
 		s.Op(op, out, strings.HasPrefix(out, "ok "))
 	}
+	c14ParsedPath(s)
 }
